@@ -118,5 +118,47 @@ func ShieldParamsProfile(seed int64, out *Recorder, nOps int) *Chain {
 		line["stored"] = fmt.Sprint(sk.GetPoolParams(ctx).WithdrawPeriod.Nanoseconds())
 		out.emit(line)
 	}
+	// RestoreShield for a purchase that is gone while its purchaser still holds another purchase in the pool (the claimed purchase
+	// expired while the claim was open: the gov end-blocker calls RestoreShield outside any recover when the claim is rejected)
+	n := 0
+	pctx, _ := ctx0.CacheContext()
+	if len(sk.GetAllPurchaseLists(pctx)) == 0 {
+		// every purchase of the history has expired: a fresh pool (its creation buys one unit of shield for the sponsor)
+		admin := sk.GetAdmin(pctx)
+		one := sdk.NewCoins(sdk.NewInt64Coin(Bond, 1))
+		var cerr error
+		if pi := catch(func() {
+			_, cerr = sk.CreatePool(pctx, admin, one, shieldtypes.MixedCoins{Native: one}, fmt.Sprintf("probe-%d", seed), a.Accts[len(a.Accts)-1].Addr, "probe", sdk.NewInt(1000000000000000))
+		}); pi != nil || cerr != nil {
+			out.emit(D{"k": "sparams", "probe": "restore_absent", "skipped": fmt.Sprint("no purchase and no pool could be made: ", cerr, pi)})
+		}
+	}
+	for _, pl := range sk.GetAllPurchaseLists(pctx) {
+		if len(pl.Entries) == 0 || n >= 3 {
+			continue
+		}
+		n++
+		ctx, _ := pctx.CacheContext()
+		purchaser, err := sdk.AccAddressFromBech32(pl.Purchaser)
+		if err != nil {
+			continue
+		}
+		absent := uint64(0)
+		for _, e := range pl.Entries {
+			if e.PurchaseId >= absent {
+				absent = e.PurchaseId + 1 + uint64(rng.Intn(1000))
+			}
+		}
+		before := sk.GetTotalShield(ctx)
+		outcome := "ok"
+		var rerr error
+		if pi := catch(func() { rerr = sk.RestoreShield(ctx, pl.PoolId, purchaser, absent, sdk.NewCoins(sdk.NewInt64Coin(Bond, 1+rng.Int63n(1000)))) }); pi != nil {
+			outcome = "panic: " + trunc(pi.Value, 100)
+		} else if rerr != nil {
+			outcome = "error: " + trunc(rerr.Error(), 80)
+		}
+		out.emit(D{"k": "sparams", "probe": "restore_absent", "pool": pl.PoolId, "purchaser": Hex(purchaser), "purchase": absent, "entries": len(pl.Entries),
+			"outcome": outcome, "total_before": before.String(), "total_after": sk.GetTotalShield(ctx).String()})
+	}
 	return a
 }
